@@ -4,6 +4,7 @@ import (
 	"fmt"
 	"sort"
 	"strings"
+	"sync"
 	"testing"
 	"time"
 
@@ -64,6 +65,7 @@ type c16World struct {
 	tcpPeers    int    // peers on one TCP server endpoint, all announcing the same ArduPilot (system 1, component 1)
 	timeouts    string // default | idle<=period | all-short: the node's timeout fields, which have nothing to do with heartbeats
 	manySenders int    // ArduPilot senders (distinct ids, channel 0) heard before everything else
+	busyApp     bool   // the application keeps the node busy with writes (to nobody) for a dozen periods
 }
 
 func (w *c16World) describe() string {
@@ -71,8 +73,8 @@ func (w *c16World) describe() string {
 	for _, h := range w.sources {
 		s = append(s, fmt.Sprintf("(ch%d sys%d comp%d ap%d v2=%v x%d)", h.ch, h.sys, h.comp, h.autopilot, h.v2, h.repeat))
 	}
-	return fmt.Sprintf("dialect=%s version=%d heartbeat=%v period=%v type=%d autopilot=%d streamreq=%v freq=%d channels=%d outV2=%v others=%d tcpPeersOnOneEndpoint=%d timeouts=%s arduPilotSendersHeardFirst=%d sources=%s",
-		w.dialectKind, w.version, w.hbEnabled, w.period, w.sysType, w.apType, w.srEnabled, w.freq, w.nch, w.outV2, w.others, w.tcpPeers, w.timeouts, w.manySenders, strings.Join(s, " "))
+	return fmt.Sprintf("dialect=%s version=%d heartbeat=%v period=%v type=%d autopilot=%d streamreq=%v freq=%d channels=%d outV2=%v others=%d tcpPeersOnOneEndpoint=%d timeouts=%s arduPilotSendersHeardFirst=%d applicationBusyWriting=%v sources=%s",
+		w.dialectKind, w.version, w.hbEnabled, w.period, w.sysType, w.apType, w.srEnabled, w.freq, w.nch, w.outV2, w.others, w.tcpPeers, w.timeouts, w.manySenders, w.busyApp, strings.Join(s, " "))
 }
 
 func (w *c16World) dialect() *dialect.Dialect {
@@ -115,7 +117,7 @@ func hasStd(d *dialect.Dialect, id uint32, std message.Message) bool {
 
 func TestC16Automatic(t *testing.T) {
 	rec := evid.New(t, "C16", "generated node configurations (heartbeat on/off, period 20-80ms, system/autopilot type, dialect in {common, ardupilotmega, minimal, user dialects with version 0..255 with / without / with a fake HEARTBEAT or REQUEST_DATA_STREAM, none}, stream requests on/off, frequency 1..50, 1..3 channels, v1/v2 output) and histories of incoming heartbeats from generated (channel, system, component, autopilot) sources repeated several times and interleaved with other messages; oracles: heartbeats on every channel with the configured fields, status 4, dialect version, at most elapsed/period+1 of them and at least 2, none when disabled or the dialect lacks the standard message; for each distinct ArduPilot sender exactly the seven data-stream requests (1,2,3,6,10,11,12) at the configured rate addressed to it on its channel only plus one stream-requested event, nothing for other autopilots, other messages or when disabled; non-trivial = >=2 ArduPilot senders on >=2 channels plus a non-ArduPilot sender; distinct by hash of the scenario")
-	rec.Require("hb-enabled", "hb-disabled-or-missing", "sr-enabled-with-ardupilot", "sr-not-applicable", "multi-sender-multi-channel", "user-dialect", "v1-output", "several-channels-one-endpoint", "dialect-version-0", "ardupilot-sender-with-the-node's-own-ids", "more-than-1024-senders", "heartbeats-with-short-node-timeouts")
+	rec.Require("hb-enabled", "hb-disabled-or-missing", "sr-enabled-with-ardupilot", "sr-not-applicable", "multi-sender-multi-channel", "user-dialect", "v1-output", "several-channels-one-endpoint", "dialect-version-0", "ardupilot-sender-with-the-node's-own-ids", "more-than-1024-senders", "heartbeats-with-short-node-timeouts", "non-heartbeat-message-naming-ardupilot", "heartbeats-while-the-application-writes")
 	evid.Check(t, rec, evid.N(200, 600), func(t *rapid.T) {
 		drawNodeInit(t)
 		w := &c16World{}
@@ -151,6 +153,7 @@ func TestC16Automatic(t *testing.T) {
 		if w.tcpPeers == 0 {
 			w.timeouts = rapid.SampledFrom([]string{"default", "default", "idle<=period", "all-short"}).Draw(t, "timeouts")
 		}
+		w.busyApp = w.hbEnabled && rapid.IntRange(0, 7).Draw(t, "busy_application") == 0
 		if w.srEnabled && rapid.IntRange(0, 11).Draw(t, "many_senders") == 0 {
 			w.manySenders = rapid.IntRange(1025, 1100).Draw(t, "n_senders")
 		}
@@ -230,6 +233,7 @@ func runC16(w *c16World) ([]string, error) {
 		sys, comp byte
 	}
 	ardu := map[key]bool{}
+	otherAutopilotMsgs := 0
 	k := 0
 	maxRepeat := 0
 	for _, h := range w.sources {
@@ -269,6 +273,16 @@ func runC16(w *c16World) ([]string, error) {
 			if k < w.others {
 				// other traffic from the same sender: must trigger nothing
 				pipes[h.ch].Feed(tagged(h.sys, k, "debug", h.v2, nil, 0).Bytes())
+				if w.dialectKind == "common" || w.dialectKind == "ardupilotmega" {
+					// HIGH_LATENCY2 is the other standard message that names an autopilot; coming from an ArduPilot
+					// vehicle (a sender of its own, never heard otherwise) it is still not a heartbeat
+					hl := lay(235)
+					f := ref.Frame{V2: true, Seq: byte(k), Sys: byte(200 + k%40), Comp: 190, ID: 235}
+					f.Payload = hl.Encode(&common.MessageHighLatency2{Timestamp: uint32(k), Type: 2, Autopilot: 3}, true)
+					f.Checksum = f.ChecksumFor(hl.CRCExtra)
+					pipes[h.ch].Feed(f.Bytes())
+					otherAutopilotMsgs++
+				}
 			}
 			k++
 		}
@@ -371,6 +385,43 @@ func runC16(w *c16World) ([]string, error) {
 		time.Sleep(3 * w.period) // give wrong heartbeats a chance to show up
 	} else {
 		time.Sleep(5 * time.Millisecond)
+	}
+	// heartbeats are due on every open channel whatever else the node is doing: four goroutines keep it busy with
+	// writes addressed to no channel (nothing of them reaches a wire) for a dozen periods
+	busyFrom, busyBeats := time.Now(), make([]int, len(pipes))
+	if w.busyApp && hbExpected {
+		for c, p := range pipes {
+			hbs, _, _, _ := count(p)
+			busyBeats[c] = len(hbs)
+		}
+		stopBusy := make(chan struct{})
+		var bw sync.WaitGroup
+		for g := 0; g < 4; g++ {
+			bw.Add(1)
+			go func() {
+				defer bw.Done()
+				for {
+					select {
+					case <-stopBusy:
+						return
+					default:
+					}
+					n.WriteMessageTo(nil, &common.MessageDebug{}) //nolint:errcheck
+				}
+			}()
+		}
+		time.Sleep(12 * w.period)
+		close(stopBusy)
+		bw.Wait()
+		busyFor := time.Since(busyFrom)
+		for c, p := range pipes {
+			hbs, _, _, _ := count(p)
+			got := len(hbs) - busyBeats[c]
+			due := int(busyFor / w.period)
+			if got < due/2-1 && !stalls.StalledBetweenOver(busyFrom, time.Now(), w.period/2) {
+				return nil, fmt.Errorf("channel %d: %d heartbeats in %v while the application was writing (period %v, %d were due): beats are skipped when the node is busy", c, got, busyFor, w.period, due)
+			}
+		}
 	}
 	elapsed := time.Since(t0)
 	// snapshot before closing
@@ -588,6 +639,12 @@ func runC16(w *c16World) ([]string, error) {
 	}
 	if w.timeouts != "default" && hbExpected {
 		cls = append(cls, "heartbeats-with-short-node-timeouts")
+	}
+	if w.busyApp && hbExpected {
+		cls = append(cls, "heartbeats-while-the-application-writes")
+	}
+	if otherAutopilotMsgs > 0 && srActive {
+		cls = append(cls, "non-heartbeat-message-naming-ardupilot")
 	}
 	for kk := range ardu {
 		if srActive && kk.sys == nodeSys && kk.comp == nodeComp {
